@@ -101,6 +101,10 @@ def build_cases(tier, backend):
         r = repr(s)
         add("str", "echo-arg", r, per.format(f"j.echoS({r})"), ("echo", s))
         add("str", "bank", r, f"ds.Select(lambda e: e.{coll}({r}).Count())", ("bank", s))
+        if len(s) <= 1:
+            # the same collection read twice with two different bank names: each name reaches its own retrieval
+            add("str", "bank-second-use", r, f"ds.Select(lambda e: (e.{coll}('A').Count(), e.{coll}({r}).Count()))", ("banks2", ("A", s)))
+            add("str", "bank-first-use", r, f"ds.Select(lambda e: (e.{coll}({r}).Count(), e.{coll}('B').Count()))", ("banks2", (s, "B")))
         if backend == "atlas":
             add("str", "attribute", r, per.format(f"j.getAttributeFloat({r})"), ("attr", s))
         if s != "":
@@ -139,6 +143,13 @@ def judge(c, o, evs):
             banks = [b for (_t, b) in er.reqs]
             if banks != [exp[1]]:
                 return "bad", dict(base, symptom="bank-mismatch", observed=[b.encode("utf-8", "surrogateescape").hex() for b in banks], expected=exp[1].encode().hex())
+            return "ok", None
+        if kind == "banks2":
+            banks = [b for (_t, b) in er.reqs]
+            # a missing bank ends the event at the first failed retrieval: what was requested must be a prefix of the two names
+            want = list(exp[1])
+            if not banks or banks != want[:len(banks)] or (len(banks) < 2 and er.end == "ok"):
+                return "bad", dict(base, symptom="bank-mismatch", observed=[b.encode("utf-8", "surrogateescape").hex() for b in banks], expected=[w.encode().hex() for w in want])
             return "ok", None
         if kind == "attr":
             if er.attrs != [exp[1]]:
